@@ -23,7 +23,7 @@ fn ty_str(t: &syn::Type) -> String {
 }
 
 /// build the standalone struct exactly as downstream code does
-fn standalone(
+pub fn standalone(
     reg: &PortableRegistry,
     settings: &scale_typegen::TypeGeneratorSettings,
     name: &str,
